@@ -104,6 +104,17 @@ def _work(units):
             for j in range(lo, hi):
                 ast = esh.prog_of(esh._number(sk[j], {"p": 0, "r": 0}))
                 progcheck.check_prog(acc, ast, [dict(e, u="id7") for e in esh.assignments(names)], "gram:shape")
+        elif u[0] == "ws":
+            # the same sentences written with every ASCII white-space character (and line-end convention) between the tokens
+            _, sep = u
+            for tag, ast, envs in list(ei.sharing())[:8] + list(ei.nested_tuples())[:3] + list(ei.singles(ei.POOL1[:3]))[:12]:
+                if idents_of(ast) & set(reserved):
+                    continue
+                text = rp.render(ast, sep=sep)
+                if rp.classify(text) != ("accept", ast):
+                    acc.add("ambiguous_skipped")
+                    continue
+                progcheck.check_prog(acc, ast, envs[:6], "gram:ws:" + repr(sep), text=sep + text + sep)
         elif u[0] == "after":
             # a grammatical text must compile whatever was compiled before it in this process
             _, poison = u
@@ -155,6 +166,7 @@ def units(tier):
         n = esh.count_shapes(P)
         out += [("shape", P, lo, min(n, lo + 16)) for lo in range(0, n, 16)]
     out += [("after", p) for p in POISON]
+    out += [("ws", sep) for sep in ("\t", "\n", "\r\n", "\r", "\x0c", "\x0b", " \t ", "\n\n", " \r\n\t", "\x0c\n", " \x0b ", "\r\r\n", "  ")]
     B = eb.all_bases()
     for nme in (eb.SMALL if tier == "quick" else sorted(B)):
         lexs = eb.lexemes(B[nme])
